@@ -842,7 +842,7 @@ pub fn profiles(thorough: bool) -> Vec<KProf> {
         KProf { name: "immortal-entries", u: 12, len: 140, r: 4, immortal: 3, ..base.clone() },
         // one instance driven for millions of operations (behaviour keyed on operation counts,
         // wrap-arounds, slow drift); only selected explicitly with --profile marathon
-        KProf { name: "marathon", u: 40, len: 2_400_000 * big, r: 7, tick_num: 1, tick_den: 3, tick_jump: 2, w: [40, 10, 10, 10, 12, 1, 0], export_end: true, ..base.clone() },
+        KProf { name: "marathon", u: 40, len: 4_800_000 * big, r: 7, tick_num: 1, tick_den: 3, tick_jump: 2, w: [40, 10, 10, 10, 12, 1, 0], export_end: true, ..base.clone() },
     ]
 }
 
